@@ -200,13 +200,20 @@ fn xlsx_doc(case: &Case) -> (xx::XlsxDoc, Vec<(String, String)>) {
             xx::XSheet { name: s.name.clone(), state: if s.state == 0 { (s.name.len() % 2) as u8 } else { s.state + 1 }, kind, rows: if kind == 1 { vec![] } else { date_cell() }, ..Default::default() }
         })
         .collect();
-    let names: Vec<(String, String)> = case.names.iter().map(|n| (n.name.clone(), ref_text(case, n))).collect();
+    let mut names: Vec<(String, String)> = case.names.iter().map(|n| (n.name.clone(), ref_text(case, n))).collect();
+    let mut written = names.clone();
+    // the same name again in a sheet scope (one Print_Area per sheet, a local Total shadowing the global
+    // one): every definition is listed, in order
+    if let (Some(first), true) = (names.first().cloned(), case.wide % 3 == 0) {
+        written.push((format!("{}\u{1}0", first.0), format!("{}+1", first.1)));
+        names.push((first.0.clone(), format!("{}+1", first.1)));
+    }
     (
         xx::XlsxDoc {
             sheets,
             styles: Some(xx::XStyles { num_fmts: vec![], cell_xfs: vec![Some(0), Some(14)], cell_style_xfs: 1, dxf_decoy: false }),
             date1904: if case.date1904 { Some(true) } else if case.wide % 2 == 0 { None } else { Some(false) },
-            defined_names: names.clone(),
+            defined_names: written,
             enc: case.enc.clone(),
             ..Default::default()
         },
